@@ -354,6 +354,19 @@ def check_mirror(ctx):
         for s in inits:
             fl = {x["name"]: x["e"] for x in s["fields"]}
             sc = fl.get("scopes")
+            # the list may be computed once into a local and cloned / moved into the initialisers
+            hops = 0
+            while sc is not None and hops < 3:
+                x = sir.strip_ref(sc)
+                while x.get("k") == "mcall" and x["m"] in ("clone", "to_vec", "to_owned") and not x["args"]:
+                    x = sir.strip_ref(x["recv"])
+                if x.get("k") == "path" and len(x["segs"]) == 1:
+                    decl = [n for n in sir.walk(f.body) if n.get("k") == "local" and n["pat"].get("name") == x["segs"][0] and n.get("init") is not None]
+                    if decl:
+                        sc = decl[0]["init"]
+                        hops += 1
+                        continue
+                break
             from_scripts = sc is not None and mentions(sc, "scripts") and any(is_mcall(n, "iter") for n in sir.walk(sc)) and not any(is_mcall(n, "rev") for n in sir.walk(sc))
             details.append("scopes from globals.scripts in order: %s" % from_scripts)
             ok = ok and from_scripts
